@@ -143,4 +143,76 @@ theorem indexed_pipeline_marked_slice (o : Opts) (ads : List Matchable) (p : Sin
         obtain ⟨rfl, -, -⟩ := hmk
         exact C03.cli_pipeline_marked_slice_for_sound_adapters o (regroup ads).ads mods hmods (regroup_wf ads hwf hacgt) read r' i' evs evs' hq h
 
+/-! ## Regrouping is a rearrangement -/
+
+theorem filterMap_map_snd {α β : Type} (l : List (α × Nat)) (g : α × Nat → Option β) :
+    (l.filterMap (fun ai => (g ai).map (·, ai.2))).map (·.2) = (l.filter (fun ai => (g ai).isSome)).map (·.2) := by
+  induction l with
+  | nil => rfl
+  | cons x xs ih =>
+    simp only [List.filterMap_cons, List.filter_cons]
+    cases h : g x <;> simp [ih]
+
+theorem perm3_second {x : Nat} {A B C L : List Nat} (h : (A ++ B ++ C).Perm L) : (A ++ (x :: B ++ C)).Perm (x :: L) := by
+  have : (A ++ (x :: B ++ C)).Perm (x :: (A ++ (B ++ C))) := by simpa using List.perm_middle (a := x) (l₁ := A) (l₂ := B ++ C)
+  exact this.trans (List.Perm.cons _ (by simpa [List.append_assoc] using h))
+
+theorem perm3_third {x : Nat} {A B C L : List Nat} (h : (A ++ B ++ C).Perm L) : (A ++ (B ++ x :: C)).Perm (x :: L) := by
+  have : (A ++ (B ++ x :: C)).Perm (x :: (A ++ B ++ C)) := by
+    simpa [List.append_assoc] using List.perm_middle (a := x) (l₁ := A ++ B) (l₂ := C)
+  exact this.trans (List.Perm.cons _ h)
+
+/-- `_split_adapters` is a partition: every position of the given list is in exactly one of the three lists -/
+theorem split_positions_perm (ads : List Matchable) :
+    ((splitAdapters ads).2.2.map (·.2) ++ (splitAdapters ads).1.map (·.2) ++ (splitAdapters ads).2.1.map (·.2)).Perm (List.range ads.length) := by
+  have hz : ads.zipIdx.map (·.2) = List.range ads.length := by
+    simp [List.zipIdx_map_snd, List.range_eq_range']
+  rw [← hz]
+  simp only [splitAdapters]
+  rw [filterMap_map_snd]
+  have h2 : ∀ l : List (Matchable × Nat),
+      (l.filterMap (fun ai => if (indexableAs true ai.1).isSome then none else (indexableAs false ai.1).map (·, ai.2))).map (·.2)
+      = (l.filter (fun ai => (indexableAs true ai.1).isNone && (indexableAs false ai.1).isSome)).map (·.2) := by
+    intro l
+    induction l with
+    | nil => rfl
+    | cons x xs ih =>
+      simp only [List.filterMap_cons, List.filter_cons]
+      cases h1 : indexableAs true x.1 <;> cases h2 : indexableAs false x.1 <;> simp [ih]
+  rw [h2]
+  generalize ads.zipIdx = l
+  induction l with
+  | nil => simp
+  | cons x xs ih =>
+    simp only [List.filter_cons]
+    cases h1 : indexableAs true x.1 <;> cases h2 : indexableAs false x.1
+    · simpa [h1, h2, List.append_assoc] using ih
+    · simpa [h1, h2, List.append_assoc] using perm3_third (x := x.2) ih
+    · simpa [h1, h2, List.append_assoc] using perm3_second (x := x.2) ih
+    · simpa [h1, h2, List.append_assoc] using perm3_second (x := x.2) ih
+
+theorem filterMap_id_map_some {α : Type} (l : List α) (f : α → Nat) : (l.map (fun p => some (f p))).filterMap id = l.map f := by
+  induction l with
+  | nil => rfl
+  | cons x xs ih => simp [ih]
+
+/-- **Regrouping loses and duplicates nothing**: the adapter numbers of the regrouped table (index objects themselves aside) refer to
+    every adapter of the given list exactly once -/
+theorem regroup_origin_perm (ads : List Matchable) : ((regroup ads).origin.filterMap id).Perm (List.range ads.length) := by
+  have hp := split_positions_perm ads
+  unfold regroup
+  simp only
+  split
+  · by_cases c1 : (splitAdapters ads).1.length > 1 <;> by_cases c2 : (splitAdapters ads).2.1.length > 1 <;>
+      simp only [c1, c2, if_true, if_false, List.map_append, List.map_map, List.filterMap_append, List.map_cons, List.map_nil,
+        List.filterMap_cons, List.filterMap_nil, List.append_nil, Function.comp_def, filterMap_id_map_some, id]
+    · simpa [List.append_assoc] using hp
+    · -- prefix index, suffix adapters as singles: other ++ suf ++ pre
+      refine List.Perm.trans ?_ hp
+      simp only [List.append_assoc]
+      exact List.Perm.append_left _ List.perm_append_comm
+    · simpa [List.append_assoc] using hp
+    · simpa [List.append_assoc] using hp
+  · simp [filterMap_id_map_some]
+
 end Cutadapt.C08
